@@ -127,6 +127,17 @@ fn witnesses() -> Vec<(&'static str, &'static str, &'static str)> {
         ("dyn-struct-vs-user", "trait Tr { fn m(Self) -> int32; }\nimpl Tr for int32 { fn m(self: int32) -> int32 { self } }\nstruct dyn__Tr { k: int32 }\nfn main() { let d: dyn Tr = 4; let u = dyn__Tr { k: 1 }; string_println(int32_to_string(Tr::m(d) + u.k)) }\n", "5\n"),
         ("main0-vs-user", "fn main0() -> int32 { 9 }\nfn main() { string_println(int32_to_string(main0())) }\n", "9\n"),
         ("array-helper-vs-user", "fn array_get__Array_2_int32(a: int32) -> int32 { a }\nfn main() { let xs = [1, 2]; string_println(int32_to_string(array_get(xs, 1) + array_get__Array_2_int32(5))) }\n", "7\n"),
+        // the entry point named by the program itself (its Go function is `main0`; Go's `main` has no result)
+        ("entry-point-called-as-a-branch-result", "fn again(n: int32) -> unit { if n > 0 { main() } else { () } }\nfn main() { string_println(\"m\"); again(0) }\n", "m\n"),
+        ("entry-point-called-in-a-let", "fn again(n: int32) -> unit { if n > 0 { let u = main(); u } else { () } }\nfn main() { string_println(\"m\"); again(0) }\n", "m\n"),
+        ("entry-point-called-as-a-statement", "fn again(n: int32) -> unit { if n > 0 { main(); () } else { () } }\nfn main() { string_println(\"m\"); again(0) }\n", "m\n"),
+        ("entry-point-called-as-a-function-result", "fn again() -> unit { main() }\nfn guard(n: int32) -> unit { if n > 0 { again() } else { () } }\nfn main() { string_println(\"m\"); guard(0) }\n", "m\n"),
+        ("entry-point-passed-as-a-value", "fn run(f: () -> unit, n: int32) -> unit { if n > 0 { f() } else { () } }\nfn main() { string_println(\"m\"); run(main, 0) }\n", "m\n"),
+        ("entry-point-bound-to-a-local", "fn main() { string_println(\"m\"); let f = main; let n = 0; if n > 0 { f() } else { () } }\n", "m\n"),
+        ("entry-point-called-in-a-closure", "fn main() { string_println(\"m\"); let n = 0; let c = |k: int32| if k > 0 { main() } else { () }; c(n) }\n", "m\n"),
+        ("entry-point-called-in-a-match-arm", "fn again(n: int32) -> unit { match n { 0 => (), _ => main() } }\nfn main() { string_println(\"m\"); again(0) }\n", "m\n"),
+        ("entry-point-spawned", "fn again(n: int32) -> unit { if n > 0 { go main } else { () } }\nfn main() { string_println(\"m\"); again(0) }\n", "m\n"),
+        ("entry-point-in-a-tuple", "fn again(n: int32) -> unit { if n > 0 { let t = (main(), 1); () } else { () } }\nfn main() { string_println(\"m\"); again(0) }\n", "m\n"),
         ("shadow-builtin-fn", "fn string_len(s: string) -> int32 { 99 }\nfn main() { string_println(int32_to_string(string_len(\"ab\"))) }\n", "99\n"),
     ]
 }
@@ -285,7 +296,7 @@ impl Family for NamesFamily {
         &["C19", "C02", "C04", "C14"]
     }
     fn rule(&self) -> &'static str {
-        "95 hostile identifiers (Go keywords that goml allows, predeclared identifiers, runtime helper names, the builtins expanded at their call sites, compiler temporaries, generated type/helper names, spellings of the compiler's own type representation, the entry point's names, mangling look-alikes such as a__0) x 20 roles (a variant of a generic enum of an imported package with one instance; a trait method reached by path, by dot, through a bound and through a dyn value; a fn called from a closure that captures a function-typed local, fn / struct / variant of an imported package (these through whole-program compilation and through build + link), fn, param, local, pattern variable, closure parameter, struct, field, enum, variant, trait, method, type parameter, fn next to temporaries, fn called from a closure) plus 24 collision witnesses for generated names (5 for the names of generic instances, 3 for types spelled like a renamed local), plus 28 programs declaring two entities of one name in one namespace (functions, types, traits, parameters of functions/methods/impl methods, variants, fields, extern vs fn, methods of one impl, one binder twice in a tuple / nested / constructor / struct pattern or in a closure's parameter list) that must be rejected, plus 29 programs of nested matches on two enum-typed variables (every word of length <= 4 over {x, y} beginning with x as the scrutinees from the outside in; the innermost level also inside a closure called at once) and 7 programs in which re-matches of the variable stand next to each other inside an arm of a match on it (with a match on the other variable, an if or a closure between or around them), and 364 programs with a local spelled field0..field27, as the last of 1..13 parameters of a function whose body is a struct literal written in another order than declared (whose field values the compiler names); whose Go type switches rebind the scrutinee's identifier inside their cases; oracle: emitted Go passes the Go checker and prints exactly what the twin with a benign identifier prints (= the hard-wired expected output). non-trivial = cases whose hostile name survives into the Go text unescaped or mangled; distinct = distinct source text"
+        "95 hostile identifiers (Go keywords that goml allows, predeclared identifiers, runtime helper names, the builtins expanded at their call sites, compiler temporaries, generated type/helper names, spellings of the compiler's own type representation, the entry point's names, mangling look-alikes such as a__0) x 20 roles (a variant of a generic enum of an imported package with one instance; a trait method reached by path, by dot, through a bound and through a dyn value; a fn called from a closure that captures a function-typed local, fn / struct / variant of an imported package (these through whole-program compilation and through build + link), fn, param, local, pattern variable, closure parameter, struct, field, enum, variant, trait, method, type parameter, fn next to temporaries, fn called from a closure) plus 34 collision witnesses for generated names (10 of them programs that name their own entry point: called as a branch / function / arm result, in a let, as a statement, in a closure, in a tuple, passed or bound as a value, spawned) (5 for the names of generic instances, 3 for types spelled like a renamed local), plus 28 programs declaring two entities of one name in one namespace (functions, types, traits, parameters of functions/methods/impl methods, variants, fields, extern vs fn, methods of one impl, one binder twice in a tuple / nested / constructor / struct pattern or in a closure's parameter list) that must be rejected, plus 29 programs of nested matches on two enum-typed variables (every word of length <= 4 over {x, y} beginning with x as the scrutinees from the outside in; the innermost level also inside a closure called at once) and 7 programs in which re-matches of the variable stand next to each other inside an arm of a match on it (with a match on the other variable, an if or a closure between or around them), and 364 programs with a local spelled field0..field27, as the last of 1..13 parameters of a function whose body is a struct literal written in another order than declared (whose field values the compiler names); whose Go type switches rebind the scrutinee's identifier inside their cases; oracle: emitted Go passes the Go checker and prints exactly what the twin with a benign identifier prints (= the hard-wired expected output). non-trivial = cases whose hostile name survives into the Go text unescaped or mangled; distinct = distinct source text"
     }
     fn cases(&self, _tier: Tier) -> Box<dyn Iterator<Item = Value> + '_> {
         let mut v = Vec::new();
